@@ -465,8 +465,9 @@ class Run:
         self.dist = {}
         os.makedirs(os.path.join(VERIF, "evidence"), exist_ok=True)
         os.makedirs(os.path.join(VERIF, "replays"), exist_ok=True)
+        replaying = "--replay" in sys.argv                           # a replay run reads such a file: keep them
         for fn in os.listdir(os.path.join(VERIF, "replays")):      # replays of earlier runs of this property are stale
-            if fn.startswith(pid + "_"):
+            if fn.startswith(pid + "_") and not replaying:
                 try: os.remove(os.path.join(VERIF, "replays", fn))
                 except OSError: pass
 
